@@ -567,6 +567,7 @@ class Run:
         import random as _random
         rnd = _random.Random(st['rseed']) if st.get('rseed') is not None else None
         sched = Sched(preempt=st.get('preempt', ()), rnd=rnd, p_switch=st.get('p_switch', 0.0))
+        sched.line_files = self.sc.get('line_trace')
         blocks = [[] for _ in st['branches']]
         results = [None] * len(st['branches'])
 
